@@ -153,6 +153,30 @@ def teval(t: Term, env: dict):
             if all(teval(c, env2) for c in conds.args):
                 vals.append(bool(teval(body, env2)))
         return all(vals) if op == "call:all" else any(vals)
+    if op in ("call:re.match", "call:re.fullmatch", "call:re.search") and len(a) >= 2:
+        import re as _re
+        try:
+            return getattr(_re, op.split(".")[-1])(ev(a[0]), ev(a[1]))
+        except Unknown:
+            raise
+        except Exception as e:
+            raise Unknown(f"{op}: {e}")
+    if op in ("meth:groups", "meth:group", "meth:groupdict"):
+        try:
+            return getattr(ev(a[0]), op[5:])(*[ev(x) for x in a[1:]])
+        except Unknown:
+            raise
+        except Exception as e:
+            raise Unknown(f"{op}: {e}")
+    if op in ("comp:list", "comp:gen") and len(a) == 3:
+        body, it, conds = a
+        el = App("elem", (it,))
+        out = []
+        for item in ev(it):
+            env2 = {**env, el: item}
+            if all(teval(c, env2) for c in conds.args):
+                out.append(teval(body, env2))
+        return out
     if op == "list":
         return [ev(x) for x in a]
     if op == "tuple":
